@@ -2,6 +2,7 @@ package oxc
 
 import (
 	"fmt"
+	"io"
 	"os"
 	"path/filepath"
 	"strconv"
@@ -61,6 +62,8 @@ type ObsFactory struct {
 	kv.Factory
 	KVs    []*obsKV
 	closed bool
+	// Yield turns every engine call (reads, batch creation, commit) into a scheduling point
+	Yield bool
 }
 
 func NewObsFactory(dir string) *ObsFactory {
@@ -75,6 +78,38 @@ func NewObsFactory(dir string) *ObsFactory {
 type obsKV struct {
 	kv.KV
 	Obs CommitObs
+	f   *ObsFactory
+}
+
+// yield makes a storage-engine call a scheduling point when the factory asks for it: code
+// that only talks to the engine (trimmers, readers) has no other point at which another
+// thread could run in between.
+func (k *obsKV) yield() {
+	if k.f != nil && k.f.Yield {
+		if s := vsched.Active(); s != nil && !s.Dead() {
+			s.Step(7)
+		}
+	}
+}
+
+func (k *obsKV) Get(key string, c kv.ComparisonType) (string, []byte, io.Closer, error) {
+	k.yield()
+	return k.KV.Get(key, c)
+}
+
+func (k *obsKV) RangeScan(lo, hi string) (kv.KeyValueIterator, error) {
+	k.yield()
+	return k.KV.RangeScan(lo, hi)
+}
+
+func (k *obsKV) KeyRangeScan(lo, hi string) (kv.KeyIterator, error) {
+	k.yield()
+	return k.KV.KeyRangeScan(lo, hi)
+}
+
+func (k *obsKV) KeyRangeScanReverse(lo, hi string) (kv.ReverseKeyIterator, error) {
+	k.yield()
+	return k.KV.KeyRangeScanReverse(lo, hi)
 }
 
 func (f *ObsFactory) NewKV(namespace string, shardId int64) (kv.KV, error) {
@@ -82,7 +117,7 @@ func (f *ObsFactory) NewKV(namespace string, shardId int64) (kv.KV, error) {
 	if err != nil {
 		return nil, err
 	}
-	o := &obsKV{KV: k}
+	o := &obsKV{KV: k, f: f}
 	f.KVs = append(f.KVs, o)
 	return o, nil
 }
@@ -96,6 +131,7 @@ func (f *ObsFactory) CommitSequences() [][]int64 {
 }
 
 func (k *obsKV) NewWriteBatch() kv.WriteBatch {
+	k.yield()
 	return &obsBatch{WriteBatch: k.KV.NewWriteBatch(), kv: k, off: -2}
 }
 
@@ -116,6 +152,7 @@ func (b *obsBatch) Put(key string, value []byte) error {
 }
 
 func (b *obsBatch) Commit() error {
+	b.kv.yield()
 	err := b.WriteBatch.Commit()
 	if err == nil && b.off != -2 {
 		b.kv.Obs.Offsets = append(b.kv.Obs.Offsets, b.off)
